@@ -46,6 +46,7 @@ async fn run_ops<C: async_graphql::dataloader::CacheFactory>(dl: DataLoader<L, C
             "enable_all" => { let b = op["b"].as_bool().unwrap(); dl.enable_all_cache(b); all_on = b; }
             "cached" => { let c = dl.get_cached_values::<i32>().await;
                           if !caching && !c.is_empty() { bad.push(format!("op#{} NoCache holds {:?}", i, c)); }
+                          if caching { for (kk, vv) in &fed { if c.get(kk) != Some(vv) { bad.push(format!("op#{} fed ({},{}) is not in the cache", i, kk, vv)); } } }
                           for (kk, vv) in &c { if seen.get(kk) != Some(vv) { bad.push(format!("op#{} cached ({},{}) was never stored / was cleared", i, kk, vv)); } } }
             _ => {}
         }
